@@ -744,7 +744,7 @@ def fam_pytop(rng):
                 ['and', call('call', A('q'), V('X')), call('call', A('q'), V('Y'))]][k - 4]
         cl = cl + [['t', [V('X'), V('Y')], body]]
         query = ['t', [V('Q0'), V('Q1')]]
-    return {'family': 'py-top', 'clauses': cl, 'query': query, 'fpl': 3, 'tdepth': 3, 'maxdelta': 200, 'need': 4, 'praise': 0.6,
+    return {'family': 'py-top', 'clauses': cl, 'query': query, 'fpl': 3, 'tdepth': 3, 'maxdelta': 200, 'need': 4, 'praise': 0.6, 'kmaxs': [0, 0, 1, 1, 2, 3, 6],
             'native': [nspec(rng, 'q', 1, rng.choice([None, None, None, 1, 3]), pclean=0.7)], 'dyn': c20.dyn_terms([['q', [A('dyn')]]]) if rng.random() < 0.3 else []}
 
 def fam_python(rng):
@@ -870,7 +870,7 @@ def decorate(rng, c):
     c['raise'] = None
     c['nest'] = None
     if r < c.get('praise', 0.45):
-        kmax = rng.choice([0, 0, 1, 2, 3, 5, 10, 40])
+        kmax = rng.choice(c.get('kmaxs') or [0, 0, 1, 2, 3, 5, 10, 40])
         c['raise'] = [rng.randrange(0, kmax + 1), rng.choice(EXC)]
     elif r < 0.58 and c['delta'] >= 14 and c['abs_limit'] is None:
         rs2 = [rng.randrange(0, 3), rng.choice(EXC)] if rng.random() < 0.4 else None
@@ -932,8 +932,30 @@ def builtin_corpus():
         c['need'] = n + 3
         for delta in range(2 * n + 2, 2 * n + 22, 4):
             add(c, delta=delta)
+    # round 4: a Python predicate whose clean-up raises when it is closed early, reached by `yield from` only / behind compiled code,
+    # abandoned by every class of projection exception; bounds equal to and above the interpreter's limit over a finite search
+    r4 = random.Random(4)
+    seen = set()
+    while len(seen) < 6:
+        c = fam_pytop(r4)
+        key = repr(c['query']) + repr(c['clauses'][-1])
+        if key in seen:
+            continue
+        seen.add(key)
+        c['native'][0].update(cleanup='raise', inner=len(seen) % 2 == 0, **{'raise': None})
+        for e in ('KeyError', 'StopIteration', 'RecursionError'):
+            add(c, delta=60, **{'raise': [0, e]})
+        add(c, delta=60)
+    for n in (5, 30):
+        c = fam_chain(rng, n)
+        c['query'] = ['ch', [A('n0')]]
+        c['need'] = n + 3
+        for extra in (25, 2 * n + 10, 2 * n + 40):
+            add(c, delta=2 * n + 40, rl0_extra=extra)
+        add(c, delta=1500, rl0_extra=25)
     for c in L:
         c.pop('raise_', None)
+        c.pop('praise', None); c.pop('kmaxs', None)
     return L
 
 def nontrivial(case, io):
